@@ -25,6 +25,12 @@ import (
 
 func init() { worlds.Register("reg", build) }
 
+var cDeepRegs = simrt.RegisterCounter("op_long_history_of_registrations_over_the_whole_range")
+
+// wideRegs: this run's operators cover the whole proprietary range (set
+// during build, read by the operator tasks).
+var wideRegs bool
+
 var cSpareCap = simrt.RegisterCounter("probe_proprietary_payload_with_spare_capacity_encoded")
 var cOwnerWrite = simrt.RegisterCounter("fault_caller_modifies_decoded_commands_it_was_handed")
 
@@ -162,6 +168,15 @@ func build(w *sim.World) {
 	modelReset()
 	nCodec := 2 + simrt.Choose(3)
 	nRegs := simrt.Choose(1 + 6*sim.Scale)
+	if simrt.Choose(40) == 1 {
+		// now and then an operator that registers its way through the whole
+		// proprietary range: a registry with a hundred and more entries
+		nRegs = 60 + simrt.Choose(200)
+		wideRegs = true
+		simrt.Count(cDeepRegs)
+	} else {
+		wideRegs = false
+	}
 	h := &history{gets: make([][]getOp, nCodec), decs: make([][]decOp, nCodec), refusals: make([][]encRefusal, nCodec)}
 	opSeed := simrt.Raw()
 	w.Notef("W-REG: %d codec tasks, %d registrations", nCodec, nRegs)
@@ -190,6 +205,8 @@ func operator(h *history, me, nOper, n int, sub uint64) {
 		up := r.Intn(2) == 0
 		var cid byte
 		switch k := r.Intn(10); {
+		case k < 7 && wideRegs:
+			cid = 0x80 + byte(r.Intn(128))
 		case k < 7:
 			cid = 0x80 + byte(r.Intn(4))
 		case k < 8:
